@@ -2,7 +2,7 @@ from common import Ctx, RULES, standard_unit_leg
 from legs import run_classified_leg
 
 PID = "C13"
-COQ_FILES = ["Model/Base.v", "Model/DapBp.v", "Proofs/DapBpProofs.v", "Properties/C13.v"]
+COQ_FILES = ["Model/Base.v", "Model/DapBp.v", "Proofs/DapBpProofs.v", "Gen/HitCond.v", "Ties/HitCondTie.v", "Properties/C13.v"]
 RULES[PID] = ("c13-hc (unit): hit-condition strings from the grammar <ws> op <ws> [+]digits <ws> (op in '', =, ==, >=, >, <, <=; ws from six ASCII "
               "white-space bytes; numbers 0..11, random u32/u64, 2^63-1, 2^63, 2^64-2 .. 2^64+9, 20..29 digits, up to 24 leading zeros) plus a malformed "
               "stream (43 fixed strings such as '%2', '> =3', '=>3', '-1', '0x10', '1_0', '+', '>=', NUL, and random strings over 0-9<>=+-%x_! blank tab); "
